@@ -201,6 +201,7 @@ def _fake_struct_module():
   m.Struct = FakeStruct; m.error = real_struct.error
   m.pack = lambda fmt, *v: FakeStruct(fmt).pack(*v)
   m.unpack = lambda fmt, d: FakeStruct(fmt).unpack(d)
+  m.calcsize = lambda fmt: FakeStruct(fmt).size
   return m
 
 
@@ -338,7 +339,10 @@ def h_chunks(ctx, cfg):
   for strat in ("struct", "array"):
     kw = {"size": size, "dfmt": dfmt, "padval": pad}
     if bo != "default": kw["byte_order"] = bo
-    out = list(ch[strat](iter(list(seq)), **kw))
+    from audiolazy import Stream
+    given = {"iter": lambda: iter(list(seq)), "list": lambda: list(seq), "tuple": lambda: tuple(seq),
+             "gen": lambda: (v for v in seq), "stream": lambda: Stream(list(seq))}[cfg.get("seq", "iter")]()
+    out = list(ch[strat](given, **kw))
     vals, effs, bodies = [], set(), set()
     for c in out:
       v, eff, body = _decode(c, size, dfmt, None if bo == "default" else bo)
@@ -428,6 +432,10 @@ def tasks(tier, seed):
   for dfmt in "bhifd":
     for bo in ("default", None, "<", ">", "!", "=", "@"):
       T.append(("h_chunks", {"dfmt": dfmt, "byte_order": bo, "L": 8 if big else 5, "S": 4 if big else 3}))
+  # the sequence may be any iterable: list, tuple, generator, Stream
+  for kind in ("list", "tuple", "gen", "stream"):
+    for dfmt in "hf":
+      T.append(("h_chunks", {"dfmt": dfmt, "byte_order": "default", "L": 8 if big else 5, "S": 4 if big else 3, "seq": kind}))
   # the default chunk size (2048 items) is larger than the range of the one-byte formats
   for dfmt in "hbi":
     T.append(("h_chunks_default_size", {"dfmt": dfmt}))
